@@ -56,6 +56,12 @@ func (a *PlayAudioAction) Execute(run flows.Run, step flows.Step, logModifier fl
 		return nil
 	}
 
+	// the URL becomes an attachment of the message so the limit for those applies
+	if len("audio:"+evaluatedAudioURL) > flows.MaxAttachmentLength {
+		logEvent(events.NewErrorf("evaluated audio URL is longer than %d limit, skipping", flows.MaxAttachmentLength-len("audio:")))
+		return nil
+	}
+
 	// an IVR flow must have been started with a call
 	call := run.Session().Trigger().Call()
 
